@@ -78,7 +78,8 @@ type Conn struct {
 	SendWindow   int
 	stalledBytes int
 	// stalled holds what the socket buffer took while the peer was not reading; Resume hands it to the peer.
-	stalled [][]byte
+	stalled   [][]byte
+	stalledAt []int // event sequence numbers at which the client's writes were accepted
 	// StallPlan (ascending AtByte): once the peer has received AtByte bytes in total it stops reading for For of
 	// simulated time (socket buffer: Window bytes), then reads on - a slow peer, not a dead one.
 	StallPlan  []Stall
@@ -394,6 +395,7 @@ func (n *Net) grantWrite(t *Task) string {
 			c.BytesFromClient += k
 			if k > 0 {
 				c.stalled = append(c.stalled, b[:k])
+				c.stalledAt = append(c.stalledAt, n.s.seq)
 			}
 		}
 		n.s.Fault("write-deadline-expired")
@@ -410,6 +412,7 @@ func (n *Net) grantWrite(t *Task) string {
 		// accepted by the socket buffer, never seen by the peer
 		c.stalledBytes += len(b)
 		c.stalled = append(c.stalled, b)
+		c.stalledAt = append(c.stalledAt, n.s.seq)
 		t.resp.n = len(b)
 		c.BytesFromClient += len(b)
 		return fmt.Sprintf("%d (buffered, peer stalled)", len(b))
@@ -464,11 +467,11 @@ func (c *Conn) Resume() {
 			c.net.s.Fault("write-blocked-until-peer-read-on")
 		}
 	}
-	st := c.stalled
-	c.stalled, c.stalledBytes = nil, 0
-	for _, b := range st {
+	st, at := c.stalled, c.stalledAt
+	c.stalled, c.stalledAt, c.stalledBytes = nil, nil, 0
+	for i, b := range st {
 		c.Wrote = append(c.Wrote, b)
-		c.WroteAt = append(c.WroteAt, c.net.s.seq)
+		c.WroteAt = append(c.WroteAt, at[i]) // when the client wrote it, not when the peer read it
 		if c.net.Peer != nil && len(b) > 0 {
 			c.net.Peer.Data(c, b) // also after the client closed: what was written before the close arrives
 		}
